@@ -117,7 +117,7 @@ def run(ctx):
     from mako.runtime import Context
     from mako.template import Template
     disagreements = []
-    n = 500 if tier == "quick" else 20000
+    n = 500 if tier == "quick" else 60000
     req, got = [], []
     for i in range(n):
         chain = gen_chain(rng)
